@@ -883,6 +883,28 @@ func derivesOpt(v ssa.Value, src func(ssa.Value) bool, throughCalls bool, depth 
 			return rec(x.X, d+1)
 		case *ssa.Extract:
 			return rec(x.Tuple, d+1)
+		case *ssa.FreeVar:
+			if containers {
+				// the value bound at the closure's creation
+				fn := x.Parent()
+				if fn != nil && fn.Parent() != nil {
+					idx := -1
+					for i, fv := range fn.FreeVars {
+						if fv == x {
+							idx = i
+						}
+					}
+					for _, b := range fn.Parent().Blocks {
+						for _, in := range b.Instrs {
+							if mc, ok := in.(*ssa.MakeClosure); ok && mc.Fn == ssa.Value(fn) && idx >= 0 && idx < len(mc.Bindings) {
+								if rec(mc.Bindings[idx], d+1) {
+									return true
+								}
+							}
+						}
+					}
+				}
+			}
 		case *ssa.Next:
 			if containers {
 				return rec(x.Iter, d+1)
